@@ -3,7 +3,7 @@
 
   `element_fullname` / `attribute_fullname` succeed iff the name is in no namespace, in the XML
   namespace, or some (non-empty, for attributes) prefix of the top frame is bound to its namespace
-  (`elementFullname_ok`, `attributeFullname_ok`); `unresolved_namespaces` never reports the
+  (`sc_elementFullname_ok`, `sc_attributeFullname_ok`); `unresolved_namespaces` never reports the
   no-namespace id or the XML namespace.
 -/
 import XotModel.Lemmas.ScopeWalk
@@ -43,7 +43,7 @@ theorem attrKnownIn_iff (l : List (Nat × Nat)) (ns : Nat) :
   · rintro ⟨⟨a, b⟩, hm, rfl, hne⟩; exact ⟨a, hne, hm⟩
   · rintro ⟨p, hne, hp⟩; exact ⟨(p, ns), hp, rfl, hne⟩
 
-theorem elementPrefixByNamespace_isSome (l : List (Nat × Nat)) (ns : Nat) :
+theorem sc_elementPrefixByNamespace_isSome (l : List (Nat × Nat)) (ns : Nat) :
     (elementPrefixByNamespace l ns).isSome = knownIn l ns := by
   unfold elementPrefixByNamespace
   cases hP : prefixesByNamespace l ns with
@@ -61,7 +61,7 @@ theorem elementPrefixByNamespace_isSome (l : List (Nat × Nat)) (ns : Nat) :
     rw [this]
     split <;> simp
 
-theorem attributePrefixByNamespace_isSome (l : List (Nat × Nat)) (ns : Nat) :
+theorem sc_attributePrefixByNamespace_isSome (l : List (Nat × Nat)) (ns : Nat) :
     (attributePrefixByNamespace l ns).isSome = attrKnownIn l ns := by
   unfold attributePrefixByNamespace
   apply Bool.eq_iff_iff.2
@@ -71,11 +71,11 @@ theorem attributePrefixByNamespace_isSome (l : List (Nat × Nat)) (ns : Nat) :
   · rintro ⟨p, hp, hne⟩; exact ⟨p, hne, (mem_prefixesByNamespace_sc l ns p).1 hp⟩
   · rintro ⟨p, hne, hp⟩; exact ⟨p, (mem_prefixesByNamespace_sc l ns p).2 hp, hne⟩
 
-theorem elementPrefix_ok (env : Env) (top : List (Nat × Nat)) (name : Nat) :
+theorem sc_elementPrefix_ok (env : Env) (top : List (Nat × Nat)) (name : Nat) :
     exceptIsOk (FStack.elementPrefix env [top] name) =
       (env.nsOfName name == Env.noNamespace || env.nsOfName name == Env.xmlNamespace ||
         knownIn top (env.nsOfName name)) := by
-  rw [← elementPrefixByNamespace_isSome]
+  rw [← sc_elementPrefixByNamespace_isSome]
   simp only [FStack.elementPrefix, FStack.top, List.headD_cons]
   cases h0 : env.nsOfName name == Env.noNamespace
   · cases h1 : env.nsOfName name == Env.xmlNamespace
@@ -86,11 +86,11 @@ theorem elementPrefix_ok (env : Env) (top : List (Nat × Nat)) (name : Nat) :
     · simp [exceptIsOk]
   · simp [exceptIsOk]
 
-theorem attributePrefix_ok (env : Env) (top : List (Nat × Nat)) (name : Nat) :
+theorem sc_attributePrefix_ok (env : Env) (top : List (Nat × Nat)) (name : Nat) :
     exceptIsOk (FStack.attributePrefix env [top] name) =
       (env.nsOfName name == Env.noNamespace || env.nsOfName name == Env.xmlNamespace ||
         attrKnownIn top (env.nsOfName name)) := by
-  rw [← attributePrefixByNamespace_isSome]
+  rw [← sc_attributePrefixByNamespace_isSome]
   simp only [FStack.attributePrefix, FStack.top, List.headD_cons]
   cases h0 : env.nsOfName name == Env.noNamespace
   · cases h1 : env.nsOfName name == Env.xmlNamespace
@@ -99,19 +99,19 @@ theorem attributePrefix_ok (env : Env) (top : List (Nat × Nat)) (name : Nat) :
     · simp [exceptIsOk]
   · simp [exceptIsOk]
 
-theorem elementFullname_ok (env : Env) (top : List (Nat × Nat)) (name : Nat) :
+theorem sc_elementFullname_ok (env : Env) (top : List (Nat × Nat)) (name : Nat) :
     exceptIsOk (FStack.elementFullname env [top] name) =
       (env.nsOfName name == Env.noNamespace || env.nsOfName name == Env.xmlNamespace ||
         knownIn top (env.nsOfName name)) := by
-  rw [← elementPrefix_ok]
+  rw [← sc_elementPrefix_ok]
   simp only [FStack.elementFullname]
   cases FStack.elementPrefix env [top] name <;> rfl
 
-theorem attributeFullname_ok (env : Env) (top : List (Nat × Nat)) (name : Nat) :
+theorem sc_attributeFullname_ok (env : Env) (top : List (Nat × Nat)) (name : Nat) :
     exceptIsOk (FStack.attributeFullname env [top] name) =
       (env.nsOfName name == Env.noNamespace || env.nsOfName name == Env.xmlNamespace ||
         attrKnownIn top (env.nsOfName name)) := by
-  rw [← attributePrefix_ok]
+  rw [← sc_attributePrefix_ok]
   simp only [FStack.attributeFullname]
   cases FStack.attributePrefix env [top] name <;> rfl
 
@@ -120,8 +120,8 @@ theorem attributeFullname_ok (env : Env) (top : List (Nat × Nat)) (name : Nat) 
 theorem unresolvedOfElement_real (env : Env) (top : List (Nat × Nat)) (t : Tree) (name ns : Nat)
     (h : ns ∈ unresolvedOfElement env top t name) :
     ns ≠ Env.noNamespace ∧ ns ≠ Env.xmlNamespace := by
-  simp only [unresolvedOfElement, List.mem_append, List.mem_filterMap, elementPrefix_ok,
-    attributePrefix_ok] at h
+  simp only [unresolvedOfElement, List.mem_append, List.mem_filterMap, sc_elementPrefix_ok,
+    sc_attributePrefix_ok] at h
   rcases h with h | ⟨a, _, h⟩
   · by_cases hc : (env.nsOfName name == Env.noNamespace || env.nsOfName name == Env.xmlNamespace ||
         knownIn top (env.nsOfName name)) = true
